@@ -73,6 +73,10 @@ def facts_for(tag, rhash=None, verbose=True):
         if os.path.exists(okfile):
             files = sorted(glob.glob(os.path.join(outdir, "*.json")))
             if files:
+                try:
+                    os.utime(os.path.dirname(outdir), None)
+                except OSError:
+                    pass
                 return files
         if not os.path.exists(DRIVER):
             raise BuildFailure(tag, "driver binary missing: run setup_cmd (cargo build --release in /verif/driver)")
@@ -129,6 +133,6 @@ def _prune(keep):
     except OSError:
         return
     ds.sort(reverse=True)
-    for _, d in ds[4:]:
+    for _, d in ds[10:]:
         if d != keep:
             shutil.rmtree(os.path.join(base, d), ignore_errors=True)
